@@ -246,6 +246,40 @@ def eval_wire_choices(repo, rule, modules=None):
                 rule.violation(where, fq, term, "the wire expression bound to `%s` depends on a secret value (different arms build "
                                "different wires): later constraints mention different wires for different inputs" % name,
                                "%s/wire/%s/%s" % (fq, name, test))
+        # a wire-valued name re-bound on ONE arm of a value-dependent test only (`if x.value < 0: x = x + n`): after the test the name
+        # stands for different wire expressions for different inputs, and so do the constraints built from it
+        by_if = {}
+        for w in assigns:
+            for tid, ttxt, pol in w["gov"]:
+                by_if.setdefault((tid, ttxt), {}).setdefault(w["name"], set()).add(pol)
+        ifs = {id(n.test): n for n in ast.walk(fi.node) if isinstance(n, ast.If)}
+        from ..loader import exec_order as _eo
+        order_ = _eo(fi.node)
+        from ..flatten import _terminates as _term
+        for (tid, ttxt), names_ in sorted(by_if.items(), key=lambda kv: kv[0][1]):
+            node_ = ifs.get(tid)
+            if node_ is None:
+                continue
+            for nm_, pols in sorted(names_.items()):
+                if len(pols) != 1:
+                    continue
+                other_arm = node_.orelse if True in pols else node_.body
+                if other_arm and _term(other_arm):
+                    continue            # the other arm leaves: nothing downstream sees the old binding
+                bound_before = nm_ in fi.params or any(
+                    isinstance(x, ast.Name) and x.id == nm_ and not isinstance(x.ctx, ast.Load) and order_.get(id(x), 1 << 30) < order_.get(id(node_), 0)
+                    for x in ast.walk(fi.node))
+                used_after = any(isinstance(x, ast.Name) and x.id == nm_ and isinstance(x.ctx, ast.Load)
+                                 and order_.get(id(x), 0) > max(order_.get(id(y), 0) for y in ast.walk(node_)) for x in ast.walk(fi.node))
+                if not bound_before or not used_after:
+                    continue
+                rec_ = [w for w in assigns if w["name"] == nm_ and any(g[0] == tid for g in w["gov"])][0]
+                if norm(rec_["value"]) == nm_:
+                    continue
+                rule.violation(fi.loc(rec_["stmt"]), fq, "`%s` re-bound to `%s` only when `%s`" % (nm_, norm(rec_["value"])[:50], ttxt),
+                               "a wire is replaced by another wire expression on one arm of a value-dependent test: what is built from `%s` "
+                               "afterwards (constraints, selectors) mentions different wires / coefficients for different inputs" % nm_,
+                               "%s/wire/one-arm/%s" % (fq, nm_))
         # fresh witnesses are allocated in the same ORDER on both arms of a value-dependent test (the wire a name is bound to
         # is its allocation index: `ret, wit` on one arm and `wit, ret` on the other swaps the wires later constraints mention)
         by_test = {}
@@ -256,7 +290,7 @@ def eval_wire_choices(repo, rule, modules=None):
             if not any(a in norm(w["value"]) for a in ("PrivVal(", "PrivValBool(", "PrivValFxp(", "PubVal(")):
                 continue
             by_test.setdefault((tid, ttxt), {True: [], False: []})[pol].append(w)
-        order_of = {id(x): i for i, x in enumerate(ast.walk(fi.node))}
+        order_of = _eo(fi.node)
         for (tid, ttxt), arms in sorted(by_test.items(), key=lambda kv: kv[0][1]):
             seq = {}
             for pol in (True, False):
